@@ -661,9 +661,10 @@ def regenerate():
         with open(tmp, "w") as fh:
             fh.write(text)
         os.replace(tmp, path)
-    with open(LAST_GOOD + f".tmp{os.getpid()}", "w") as fh:
-        json.dump({"tables": tables, "extra": extra}, fh, indent=1)
-    os.replace(LAST_GOOD + f".tmp{os.getpid()}", LAST_GOOD)
+    if not os.environ.get("LDAR_REPO"):   # a scratch copy (seed evaluation) never becomes the reference
+        with open(LAST_GOOD + f".tmp{os.getpid()}", "w") as fh:
+            json.dump({"tables": tables, "extra": extra}, fh, indent=1)
+        os.replace(LAST_GOOD + f".tmp{os.getpid()}", LAST_GOOD)
     return tables, extra, changed, hashlib.sha256(text.encode()).hexdigest()[:16]
 
 
